@@ -33,57 +33,19 @@ theorem supported_lower : ∀ s ∈ supported, lowerAscii s = s := by decide
 theorem supported_far : ∀ s ∈ supported, ∀ t ∈ supported, s ≠ t → 2 < levenshtein s t := by decide +kernel
 theorem settings_entities_supported : "settings".toList ∈ supported ∧ "entities".toList ∈ supported := by decide
 
-/-- what the code computes, with the edit distance in place of the programme -/
-theorem misspelling_model (lower : Str → Str) (sup : List Str) (key : Str) (keys : List Str) (s : Str) :
-    s ∈ misspellCands lower sup key keys ↔
-      s ∈ keys ∧ lev (lower s) key ≤ 2 ∧ s ∉ sup ∧ startsWith s ['_'] = false := by
-  simp [misspellCands, lev_correct, List.mem_filter, and_assoc]
-
-/-- **misspelling_iff.**  If no present sheet differs from a supported name only by letter case (guard = the
-    complement of F28), sheet `s` is named in the warning for `key` iff it is a misspelling of `key` in the
-    sense of the specification. -/
-theorem misspelling_iff (lower : Str → Str) (sup : List Str) (key : Str) (keys : List Str)
-    (hlow : ∀ t ∈ sup, lower t = t)
-    (guard : ∀ s ∈ keys, lower s ∈ sup → s ∈ sup) (s : Str) :
+/-- **misspelling_iff** (unguarded since F28 was repaired: the membership test lower-cases the name).
+    Sheet `s` is named in the warning for `key` iff it is present and is a misspelling of `key` in the sense of
+    the specification: within edit distance 2, not a spelling (in any letter case) of a supported sheet name, not
+    underscore-prefixed. -/
+theorem misspelling_iff (lower : Str → Str) (sup : List Str) (key : Str) (keys : List Str) (s : Str) :
     s ∈ misspellCands lower sup key keys ↔ s ∈ keys ∧ isMisspelling lev lower sup key s = true := by
-  rw [misspelling_model]
-  simp only [isMisspelling, Bool.and_eq_true, decide_eq_true_eq, Bool.not_eq_true', List.contains_eq_mem,
-    decide_eq_false_iff_not]
-  constructor
-  · rintro ⟨hk, hd, hs, hu⟩
-    exact ⟨hk, ⟨hd, fun h => hs (guard s hk h)⟩, hu⟩
-  · rintro ⟨hk, ⟨hd, hs⟩, hu⟩
-    exact ⟨hk, hd, fun h => hs (by rw [hlow s h]; exact h), hu⟩
+  simp [misspellCands, isMisspelling, lev_correct, List.mem_filter]
 
-/-- **F28, exactly.**  Without the guard the code reports, besides the misspellings, precisely the case
-    variants of `key` itself. -/
-theorem misspelling_f28_exact (lower : Str → Str) (sup : List Str) (key : Str) (keys : List Str)
-    (hlow : ∀ t ∈ sup, lower t = t) (hkey : key ∈ sup)
-    (hfar : ∀ t ∈ sup, t ≠ key → 2 < lev t key) (s : Str) :
-    s ∈ misspellCands lower sup key keys ↔
-      s ∈ keys ∧ (isMisspelling lev lower sup key s = true ∨
-                  (lower s = key ∧ s ≠ key ∧ startsWith s ['_'] = false)) := by
-  rw [misspelling_model]
-  simp only [isMisspelling, Bool.and_eq_true, decide_eq_true_eq, Bool.not_eq_true', List.contains_eq_mem,
-    decide_eq_false_iff_not]
-  constructor
-  · rintro ⟨hk, hd, hs, hu⟩
-    refine ⟨hk, ?_⟩
-    by_cases hm : lower s ∈ sup
-    · right
-      have : lower s = key := by
-        by_cases hne : lower s = key
-        · exact hne
-        · have := hfar _ hm hne
-          omega
-      exact ⟨this, fun h => hs (h ▸ hkey), hu⟩
-    · left; exact ⟨⟨hd, hm⟩, hu⟩
-  · rintro ⟨hk, h | ⟨h1, h2, hu⟩⟩
-    · obtain ⟨⟨hd, hs⟩, hu⟩ := h
-      exact ⟨hk, hd, fun h => hs (by rw [hlow s h]; exact h), hu⟩
-    · refine ⟨hk, ?_, ?_, hu⟩
-      · rw [h1, lev_self]; omega
-      · intro h; exact h2 (by rw [← hlow s h]; exact h1)
+/-- a case variant of a supported name is never reported (the former F28 shape), for the current tables -/
+theorem case_variant_not_reported (key : Str) (keys : List Str) (s : Str)
+    (h : lowerAscii s ∈ supported) : s ∉ misspellCands lowerAscii supported key keys := by
+  rw [misspelling_iff]
+  simp [isMisspelling, h]
 
 /-- the hypotheses of the two theorems hold for the tables of the current source -/
 theorem misspelling_tables_ok :
@@ -93,7 +55,87 @@ theorem misspelling_tables_ok :
 
 example : misspellCands lowerAscii supported "settings".toList
     ["survey".toList, "Settings".toList, "setting".toList, "_setting".toList, "choices".toList]
-    = ["Settings".toList, "setting".toList] := by decide
+    = ["setting".toList] := by decide
+
+/-! ## Missing translations -/
+
+/-- **missing_translation_iff.**  On a sheet whose translatable headers have the shape `col` or `col::lang`
+    (guard `trShort`), language `lang` is reported as missing column `col` iff — module docstring of
+    `translations_checks.Translations` — `lang` is used by some translatable column, `col` is used in some
+    language, and there is no `col` in `lang` ("default" being the unspecified language).  Holds for both
+    sheets (`tbl` = the survey or the choices table). -/
+theorem missing_translation_iff (tbl : Aliases) (hs : List (List Str)) (hsh : trShort tbl hs = true)
+    (lang col : Str) :
+    (∃ cols, (lang, cols) ∈ findMissing (findTranslations tbl hs) ∧ col ∈ cols) ↔
+      trMissing (trPairs tbl hs) lang col = true := by
+  have inv := findTranslations_inv tbl hs hsh
+  generalize findTranslations tbl hs = t at inv
+  generalize trPairs tbl hs = ps at inv
+  have hspec : trMissing ps lang col = true ↔
+      (∃ c, (c, lang) ∈ ps) ∧ (∃ l, (col, l) ∈ ps) ∧ (col, lang) ∉ ps := by
+    simp only [trMissing, Bool.and_eq_true, List.any_eq_true, decide_eq_true_eq, Bool.not_eq_true',
+      List.contains_eq_mem, decide_eq_false_iff_not, and_assoc]
+    constructor
+    · rintro ⟨⟨p, hp, rfl⟩, ⟨q, hq, rfl⟩, hn⟩
+      exact ⟨⟨p.1, hp⟩, ⟨q.2, hq⟩, hn⟩
+    · rintro ⟨⟨c, hc⟩, ⟨l, hl⟩, hn⟩
+      exact ⟨⟨(c, lang), hc, rfl⟩, ⟨(col, l), hl, rfl⟩, hn⟩
+  rw [hspec]
+  unfold findMissing
+  by_cases hdo : seenDefaultOnly t = true
+  · simp only [hdo, if_true, List.not_mem_nil, false_and, exists_false, false_iff]
+    rintro ⟨⟨c, hc⟩, ⟨l, hl⟩, hn⟩
+    simp only [seenDefaultOnly, Bool.or_eq_true, List.isEmpty_iff, Bool.and_eq_true, List.any_eq_true,
+      decide_eq_true_eq, beq_iff_eq] at hdo
+    rcases hdo with hnil | ⟨⟨e, he, hk⟩, hlen⟩
+    · obtain ⟨e', he', _⟩ := (inv.keys lang).mpr ⟨c, hc⟩
+      rw [hnil] at he'; cases he'
+    · -- exactly one entry, keyed `default`: every language in the pairs is `default`
+      have hone : ∀ e' ∈ t.seen, e' = e := by
+        intro e' he'
+        match hseen : t.seen, hlen, he, he' with
+        | [x], _, he, he' =>
+          simp only [List.mem_singleton] at he he'
+          rw [he, he']
+      have hl1 : lang = defaultLang := by
+        obtain ⟨e', he', hk'⟩ := (inv.keys lang).mpr ⟨c, hc⟩
+        rw [← hk', hone e' he', hk]
+      have hl2 : l = defaultLang := by
+        obtain ⟨e', he', hk'⟩ := (inv.keys l).mpr ⟨col, hl⟩
+        rw [← hk', hone e' he', hk]
+      exact hn (hl1 ▸ hl2 ▸ hl)
+  · simp only [hdo, if_false, Bool.false_eq_true]
+    constructor
+    · rintro ⟨cols, hmem, hcol⟩
+      rw [List.mem_filterMap] at hmem
+      obtain ⟨e, he, hval⟩ := hmem
+      split at hval
+      · cases hval
+      · rename_i m hm
+        simp only [Option.some.injEq, Prod.mk.injEq] at hval
+        obtain ⟨rfl, rfl⟩ := hval
+        have : col ∈ t.cols ∧ col ∉ e.2 := by simpa [List.mem_filter] using hcol
+        refine ⟨?_, (inv.cols col).mp this.1, ?_⟩
+        · exact (inv.keys e.1).mp ⟨e, he, rfl⟩
+        · intro h; exact this.2 ((inv.seen e he col).mpr h)
+    · rintro ⟨hc, hl, hn⟩
+      obtain ⟨e, he, rfl⟩ := (inv.keys lang).mpr hc
+      have hin : col ∈ t.cols.filter (fun c => !e.2.contains c) := by
+        simp only [List.mem_filter, Bool.not_eq_true', List.contains_eq_mem, decide_eq_false_iff_not]
+        exact ⟨(inv.cols col).mpr hl, fun h => hn ((inv.seen e he col).mp h)⟩
+      refine ⟨t.cols.filter (fun c => !e.2.contains c), ?_, hin⟩
+      rw [List.mem_filterMap]
+      refine ⟨e, he, ?_⟩
+      split
+      · rename_i heq; rw [heq] at hin; cases hin
+      · rfl
+
+
+example : findMissing (findTranslations surveyTrTable
+    [["type".toList], ["label".toList], ["hint".toList, "fr".toList], ["media".toList, "image".toList, "fr".toList]])
+    = [(defaultLang, ["hint".toList, "image".toList]), ("fr".toList, ["label".toList])] := by decide
+example : trShort surveyTrTable
+    [["type".toList], ["label".toList], ["hint".toList, "fr".toList], ["media".toList, "image".toList, "fr".toList]] = true := by decide
 
 /-! ## IANA language codes -/
 
